@@ -24,6 +24,10 @@ var universe = []object.ObjMetadata{
 	{Namespace: "", Name: "sys:role", GroupKind: schema.GroupKind{Group: "rbac.authorization.k8s.io", Kind: "ClusterRole"}},
 	{Namespace: "ns2", Name: "a", GroupKind: schema.GroupKind{Group: "", Kind: "ConfigMap"}},
 	{Namespace: "", Name: "ns1", GroupKind: schema.GroupKind{Group: "", Kind: "Namespace"}},
+	// neighbours of id 0 that differ from it in exactly one field (a comparison that forgets a field merges them)
+	{Namespace: "ns1", Name: "a", GroupKind: schema.GroupKind{Group: "example.io", Kind: "ConfigMap"}},
+	{Namespace: "ns1", Name: "a", GroupKind: schema.GroupKind{Group: "", Kind: "Secret"}},
+	{Namespace: "ns1", Name: "b", GroupKind: schema.GroupKind{Group: "", Kind: "ConfigMap"}},
 }
 
 func idx(id object.ObjMetadata) int {
@@ -253,6 +257,11 @@ func (o mop) coq() string {
 	panic("bad op")
 }
 
+// tablePerm maps the model's table ids 0..n-1 (plain nats on the Coq side) to universe
+// entries; redrawn per sequence so that every pair of universe ids (in particular ids that
+// differ in one field only) meets in some table.
+var tablePerm = []int{0, 1, 2, 3, 4, 5, 6, 7}
+
 func genOp(r *rand.Rand, nIDs int) mop {
 	o := mop{id: r.Intn(nIDs), s: r.Intn(2), a: r.Intn(4), r: r.Intn(5)}
 	switch k := r.Intn(20); {
@@ -292,8 +301,18 @@ func execOp(m *inventory.Manager, o mop) (res string) {
 			res = "(@ObPanic nat)"
 		}
 	}()
-	id := universe[o.id]
-	ids := func(s object.ObjMetadataSet) string { return emit.App("ObIds", emit.NatList(fromSet(s))) }
+	id := universe[tablePerm[o.id]]
+	ids := func(s object.ObjMetadataSet) string {
+		l := fromSet(s)
+		for i, k := range l { // back to the model's ids
+			for m, u := range tablePerm {
+				if u == k {
+					l[i] = m
+				}
+			}
+		}
+		return emit.App("ObIds", emit.NatList(l))
+	}
 	switch o.kind {
 	case "OpAdd":
 		switch [2]int{o.s, o.a} {
@@ -485,6 +504,11 @@ func Run(seed int64, tier, outDir string) (*emit.Summary, error) {
 		} else {
 			nIDs := 2 + r.Intn(3)
 			ln := 1 + r.Intn(seqLen)
+			tablePerm = r.Perm(len(universe))
+			if r.Intn(3) == 0 { // the one-field neighbours of id 0 together
+				tablePerm = append([]int{0, 5, 6, 7}, 1, 2, 3, 4)
+				r.Shuffle(4, func(a, b int) { tablePerm[a], tablePerm[b] = tablePerm[b], tablePerm[a] })
+			}
 			for j := 0; j < ln; j++ {
 				ops = append(ops, genOp(r, nIDs))
 			}
@@ -505,7 +529,7 @@ func Run(seed int64, tier, outDir string) (*emit.Summary, error) {
 			sum.Count("table:" + o.kind)
 		}
 		term := "(" + emit.List(opT) + ", " + emit.List(obT) + ")"
-		tcf.Add(term, strings.Join(txt, " ; "))
+		tcf.Add(term, fmt.Sprintf("table ids->universe %v: ", tablePerm)+strings.Join(txt, " ; "))
 		tterms = append(tterms, term)
 		tnontr = append(tnontr, adds > 0 && queries > 0)
 	}
